@@ -79,10 +79,14 @@ def _chain_expr(body: List[ast.stmt]) -> Optional[ast.AST]:
     return None
 
 
-def single_return_expr(f: FuncInfo) -> ast.AST:
+def single_return_expr(f: FuncInfo, skip_assigns: bool = False) -> ast.AST:
     rs = [r for r in returns_of(f) if r.value is not None]
     if len(rs) != 1:
-        e = _chain_expr(list(f.node.body))  # type: ignore[attr-defined]
+        body = list(f.node.body)  # type: ignore[attr-defined]
+        if skip_assigns:  # the caller reads the leading local definitions itself
+            while body and (isinstance(body[0], (ast.Assign, ast.AnnAssign)) or isinstance(body[0], ast.Expr) and isinstance(body[0].value, ast.Constant)):
+                body.pop(0)
+        e = _chain_expr(body)
         if e is not None:
             return e
         raise AnalysisError(f'{f.where()}: expected exactly one `return <expr>`, found {len(rs)}')
